@@ -36,6 +36,28 @@ SCHEMA = {t: {c: ty for c, ty in zip(sqlcore.COLS, ("INT", "INT", "DOUBLE", "VAR
 def cases(draw, depth):
     stmt = draw(sqlcore.statement(depth, only="select" if draw(st.integers(0, 3)) else None))
     names = sqlcore.dialect_names()
+    if draw(st.booleans()):
+        # comments live in per-node lists that generators move around (cte_sql, binary, set operations): a copy sharing such a
+        # list with its original is only visible when the tree has comments
+        # (any gap outside quotes will do: this property does not care where a comment ends up, and text that no longer parses is skipped)
+        sql = stmt["sql"]
+        gaps, q = [], None
+        for i, ch in enumerate(sql):
+            if q:
+                q = None if ch == q else q
+            elif ch in "'\"`":
+                q = ch
+            elif ch == " ":
+                gaps.append(i)
+        after_paren = [i for i in gaps if sql[i - 1 : i] == ")"]
+        for _ in range(draw(st.integers(1, 3))):
+            pool = after_paren if after_paren and draw(st.booleans()) else gaps
+            if pool:
+                i = pool[draw(st.integers(0, 200)) % len(pool)]
+                sql = sql[:i] + f" /* {draw(st.sampled_from(('c1', 'note: x', 'd')))} */" + sql[i:]
+                gaps = [g + (0 if g < i else 0) for g in gaps if g < i]
+                after_paren = [g for g in after_paren if g < i]
+        stmt = dict(stmt, sql=sql)
     n = draw(st.integers(3, 8))
     calls = []
     for _ in range(n):
